@@ -417,6 +417,83 @@ func (kf *kindFlow) sub(h *ssa.Function) *kindFlow {
 		kf.subs[h] = s
 		return s
 	}
+	// the closure that an iterator constructor returns (func f(v) iter.Seq { return func(yield) {...v...} }): it runs
+	// with the values the constructor was called with; what the call sites of the constructor know about the
+	// subject holds inside (the subject is read through the captured parameter's cell)
+	if h.Parent() != nil && h.Parent().Parent() == nil && c.transparent(h.Parent()) {
+		P := h.Parent()
+		returned := false
+		core.EachInstr(P, func(i ssa.Instruction) {
+			if ret, ok := i.(*ssa.Return); ok {
+				for _, r := range ret.Results {
+					for _, src := range append(traceSources(r), r) {
+						if mc, ok := src.(*ssa.MakeClosure); ok && mc.Fn == h {
+							returned = true
+						}
+					}
+				}
+			}
+		})
+		sites := c.P.CallIndex().Sites[P]
+		if !returned || len(sites) == 0 {
+			return nil
+		}
+		cells := map[*ssa.Alloc]bool{}
+		var entry KindSet
+		for pi, q := range P.Params {
+			all := true
+			var ent KindSet
+			for _, site := range sites {
+				args := site.Common().Args
+				if pi >= len(args) {
+					all = false
+					break
+				}
+				var callerFlow *kindFlow
+				if site.Parent() == kf.fn {
+					callerFlow = kf
+				} else {
+					callerFlow = kf.sub(site.Parent())
+					if callerFlow == nil {
+						callerFlow = kf.sub(outermost(site.Parent()))
+						if callerFlow != nil && site.Parent() != callerFlow.fn {
+							callerFlow = nil
+						}
+					}
+				}
+				if callerFlow == nil || !callerFlow.subject(args[pi]) {
+					all = false
+					break
+				}
+				ent |= callerFlow.At(site)
+			}
+			if !all {
+				continue
+			}
+			// the cell the parameter is spilled into
+			if refs := q.Referrers(); refs != nil {
+				for _, r := range *refs {
+					if st, ok := r.(*ssa.Store); ok && st.Val == ssa.Value(q) {
+						if a, ok := st.Addr.(*ssa.Alloc); ok {
+							cells[a] = true
+							entry |= ent
+						}
+					}
+				}
+			}
+		}
+		if len(cells) == 0 {
+			return nil
+		}
+		subject := func(v ssa.Value) bool {
+			ld, ok := v.(*ssa.UnOp)
+			return ok && ld.Op == token.MUL && cells[resolveCell(ld.X)]
+		}
+		s := &kindFlow{fn: h, subject: subject, in: map[*ssa.BasicBlock]KindSet{}, reached: map[*ssa.BasicBlock]bool{}, entry: entry, hasEnt: true}
+		s.solve()
+		kf.subs[h] = s
+		return s
+	}
 	if h.Parent() != nil || !c.transparent(h) {
 		return nil
 	}
